@@ -110,8 +110,10 @@ Definition add_alt (K : ekind) (a : option lerr) (p : nat) (exp : list N) (found
        | None => (p, expected_found K exp found sp)
        end.
 
-Definition add_alt_err (K : ekind) (a : option lerr) (p : nat) (e : err) : option lerr :=
-  if is_zst K then a else
+(* [zq]: the unchanged code makes add_alt_err a no-op for zero-sized error types (finding F7);
+   with zq = false a zero-sized error is recorded like in add_alt. *)
+Definition add_alt_err (zq : bool) (K : ekind) (a : option lerr) (p : nat) (e : err) : option lerr :=
+  if is_zst K then (if zq then a else Some (p, e)) else
   Some match a with
        | Some (q, x) => match Nat.compare q p with
                         | Eq => (q, merge K x e)
